@@ -34,6 +34,13 @@ R8 (typestate of the stream element) in both body-stream encoders (_send_chunks 
    for v3) the loop element may be an in-band FailedSmartServerResponse; no use of it as bytes (len(), writer argument,
    concatenation) is reachable from the loop header except through the false edge of the isinstance(.., Failed..) test or the
    true edge of isinstance(.., bytes): an error raised mid-stream reaches the client as error status + structure + end.
+R9 osutils.send_all (the one writer of every socket medium): the loop cursor advances by the variable assigned from sock.send()
+   and each send is offered the slice starting at the cursor. R10 RemoteTransport._handle_response: every `next(offset_stack)` also
+   stores into next_offset[0], the cursor shared with _readv across the responses of one readv.
+R11 SmartServerRequestProtocolOne.accept_bytes (shared by v2): every `self._send_response(..)` has an assignment of self.unused_data on
+   every path before it, or on every normal path after it (today: KNOWN FINDING for the two error replies).
+R12 the error status of a client body stream has an effect: SmartServerRequestHandler.post_body_error_received is not an empty
+   body, or _error_received records a mark that end_received reads (today: KNOWN FINDING, "Just a no-op at the moment").
 Does not decide: independence from read segmentation for all chunkings (dynamic behaviour of the state machines).
 """
 
@@ -214,8 +221,74 @@ def run(ctx):
         n_enc += 1
         ctx.check("R8-error-chunk-recognised-first", f"{PF}:{q}", not unsafe, f"every use of the stream element `{var}` as bytes (len, writer argument, concatenation) lies behind the test that it is not a FailedSmartServerResponse", construct=g.nodes[unsafe[0]].text() if unsafe else "", message=f"`{g.nodes[unsafe[0]].text() if unsafe else ''}` handles `{var}` as bytes on a path where it may still be an in-band FailedSmartServerResponse: the encoder fails (or writes garbage) instead of sending the error status, the structure and the end marker, and the client waits for the rest of a response that never ends")
     ctx.require(n_enc == 2, "stream encoders not found")
+    # ---- R11: a v1/v2 request decoder that answers keeps the bytes behind the request for the next one -------------------
+    n_v1 = 0
+    for cls_ in ("SmartServerRequestProtocolOne",):
+        fa1 = repo.func(PF, f"{cls_}.accept_bytes")
+        g1 = build_cfg(fa1)
+        keeps = set(g1.find(assigns_to("self.unused_data")))
+        ctx.require(bool(keeps), f"{PF}:{cls_}.accept_bytes: no assignment of self.unused_data found")
+        handlers_ = [h for h in ast.walk(fa1) if isinstance(h, ast.ExceptHandler)]
+        for sid in sorted(n.id for n in g1.nodes if n.kind == "stmt" and any(norm(c.func) == "self._send_response" for c in n.calls())):
+            n_v1 += 1
+            node_ = g1.nodes[sid]
+            hs_ = [h for h in handlers_ if any(x is node_.ast for b_ in h.body for x in ast.walk(b_))]
+            tag = f"except {norm(hs_[0].type)}" if hs_ and hs_[0].type is not None else "request"
+            ok1 = g1.always_before(keeps, [sid])[0] or g1.always_after([sid], keeps, exits=[g1.exit])[0]
+            ctx.check("R11-v1-reply-keeps-following-bytes", f"{PF}:{cls_}.accept_bytes[{tag}]", ok1, "the bytes behind the request are moved to unused_data on the way to or from the reply", construct=node_.text(), message=f"{cls_}.accept_bytes answers with `{node_.text()}` and returns while the bytes that followed the request line are still in self.in_buffer: the serve loop pushes back only unused_data and stops reading (next_read_size() is 0), so a following request that arrived in the same read is lost — fed byte by byte the same stream keeps it")
+    ctx.require(n_v1 >= 4, f"{PF}: only {n_v1} reply sites found in the v1 request decoder (hand-confirmed: 4)")
+    # ---- R12: an error status sent by the client in its body stream has an effect on the server side ---------------------
+    RQ = "breezy/bzr/smart/request.py"
+    fpe = repo.func(RQ, "SmartServerRequestHandler.post_body_error_received")
+    eff = [s_ for s_ in fpe.body if not isinstance(s_, ast.Pass) and not (isinstance(s_, ast.Expr) and isinstance(s_.value, ast.Constant))]
+    fer = repo.func(MS, "ConventionalRequestHandler._error_received")
+    ctx.require(any(call_attr(c) == "post_body_error_received" for c in calls_in(fer)), f"{MS}:ConventionalRequestHandler._error_received no longer hands the error to the request handler (restructured?)")
+    fend = repo.func(MS, "ConventionalRequestHandler.end_received")
+    marks = {norm(t) for s_ in walk_own(fer) if isinstance(s_, ast.Assign) for t in s_.targets if norm(t).startswith("self.")} - {"self.expecting"}
+    reads_mark = any(isinstance(n_, ast.Attribute) and norm(n_) in marks for n_ in ast.walk(fend))
+    ctx.check("R12-client-stream-error-acted-on", f"{RQ}:SmartServerRequestHandler.post_body_error_received", bool(eff) or reads_mark, "an error status decoded from the client's body stream reaches the command (the request handler acts on it, or end_received() is told)", construct="body: pass", message="the error a client raised in its body stream is decoded (oE + structure) and then dropped: SmartServerRequestHandler.post_body_error_received is a no-op and ConventionalRequestHandler.end_received goes on to call the command's do_end(), so the command completes on the truncated stream and answers success — the encoded error is not decoded into an error on the other side")
+    # ---- R9: send_all advances its cursor by what send() accepted --------------------------------------------------------
+    OS_ = "breezy/osutils.py"
+    fs = repo.func(OS_, "send_all")
+    sends = [s_ for s_ in ast.walk(fs) if isinstance(s_, ast.Assign) and len(s_.targets) == 1 and isinstance(s_.targets[0], ast.Name) and isinstance(s_.value, ast.Call) and call_attr(s_.value) == "send"]
+    loops_ = [w for w in ast.walk(fs) if isinstance(w, ast.While) and isinstance(w.test, ast.Compare) and len(w.test.ops) == 1 and isinstance(w.test.left, ast.Name) and isinstance(w.test.comparators[0], ast.Name)]
+    ctx.require(len(sends) == 1 and len(loops_) == 1, f"{OS_}:send_all: expected one `<n> = sock.send(..)` inside one `while <cursor> < <total>` loop")
+    nsent = sends[0].targets[0].id
+    advs = [a for a in ast.walk(loops_[0]) if isinstance(a, ast.AugAssign) and isinstance(a.op, ast.Add) and isinstance(a.target, ast.Name) and a.target.id in (loops_[0].test.left.id, loops_[0].test.comparators[0].id)] + [a for a in ast.walk(loops_[0]) if isinstance(a, ast.Assign) and any(isinstance(t, ast.Name) and t.id in (loops_[0].test.left.id, loops_[0].test.comparators[0].id) for t in a.targets)]
+    ctx.require(len(advs) == 1, f"{OS_}:send_all: expected exactly one cursor advance in the send loop, found {len(advs)}")
+    cur = advs[0].target.id if isinstance(advs[0], ast.AugAssign) else norm(advs[0].targets[0])
+    okadv = isinstance(advs[0], ast.AugAssign) and isinstance(advs[0].value, ast.Name) and advs[0].value.id == nsent
+    if isinstance(advs[0], ast.Assign):
+        okadv = norm(advs[0].value) in (f"{cur} + {nsent}", f"{nsent} + {cur}")
+    ctx.check("R9-send-advances-by-accepted", f"{OS_}:send_all", okadv, f"the cursor `{cur}` advances by `{nsent}`, the count send() returned", construct=norm(advs[0]), message=f"send_all advances `{cur}` with `{norm(advs[0])}` instead of by the count `{nsent}` that sock.send() returned: after a short write (send accepts fewer bytes than offered, usual for large bodies on a busy socket) the unsent tail of the chunk is skipped and the peer decodes a message with bytes missing")
+    offered = sends[0].value
+    if offered.args and isinstance(offered.args[0], ast.Name):
+        # the offered slice held in a local: follow its (single) assignment inside the loop
+        src_ = [a for a in ast.walk(loops_[0]) if isinstance(a, ast.Assign) and any(isinstance(t, ast.Name) and t.id == offered.args[0].id for t in a.targets)]
+        if len(src_) == 1:
+            offered = src_[0].value
+    sl = [e for e in ast.walk(offered) if isinstance(e, ast.Slice)]
+    ctx.check("R9-send-advances-by-accepted", f"{OS_}:send_all", len(sl) == 1 and sl[0].lower is not None and norm(sl[0].lower) == cur, f"each send() is offered the data starting at the cursor `{cur}`", construct=norm(sends[0]), message=f"`{norm(sends[0])}` does not offer the bytes starting at the cursor `{cur}`: bytes are sent twice or skipped")
+    # ---- R10: the readv cursor shared between responses is advanced wherever a range is handed out -----------------------
+    RT = "breezy/transport/remote.py"
+    fh = repo.func(RT, "RemoteTransport._handle_response")
+    hp = [a.arg for a in fh.args.args]
+    ctx.require(len(hp) == 6, f"{RT}:RemoteTransport._handle_response: parameter list changed ({hp})")
+    stack_p, shared_p = hp[1], hp[5]
+    fcall = repo.func(RT, "RemoteTransport._readv")
+    passes = [c for c in calls_in(fcall) if call_attr(c) == "_handle_response"]
+    ctx.require(len(passes) == 1 and len(passes[0].args) == 5, f"{RT}:RemoteTransport._readv: the call of _handle_response was not found")
+    nexts = [s_ for s_ in ast.walk(fh) if isinstance(s_, ast.Assign) and isinstance(s_.value, ast.Call) and call_name(s_.value) == "next" and s_.value.args and norm(s_.value.args[0]) == stack_p]
+    ctx.require(len(nexts) >= 2, f"{RT}:RemoteTransport._handle_response: expected the in-order and the cached path to take the next requested offset, found {len(nexts)} sites")
+    for s_ in nexts:
+        ctx.check("R10-readv-cursor-shared", f"{RT}:RemoteTransport._handle_response", any(norm(t) == f"{shared_p}[0]" for t in s_.targets), f"taking the next requested range also records it in {shared_p}[0], the cursor the next response starts from", construct=norm(s_), message=f"`{norm(s_)}` takes the next requested range from the iterator without recording it in `{shared_p}[0]`: the next response of the same readv starts from a range that was already skipped, never finds it and the ranges that follow are left in the cache — readv yields fewer ranges than were asked for")
+    ctx.check("R10-readv-cursor-shared", f"{RT}:RemoteTransport._handle_response", any(isinstance(s_, ast.Assign) and norm(s_.value) == f"{shared_p}[0]" for s_ in fh.body[:3]), f"each response starts from {shared_p}[0]")
+
 
 MUTANTS = [
+    Mutant("v1 body reply forgets the bytes behind the body", PF, "                self._send_response(self.request.response)\n                self.unused_data = self.in_buffer\n                self.in_buffer = b\"\"\n            else:\n", "                self._send_response(self.request.response)\n                self.in_buffer = b\"\"\n            else:\n", expect="R11-v1-reply-keeps-following-bytes"),
+    Mutant("send_all counts the offered bytes as sent", "breezy/osutils.py", "            sent_total += sent\n", "            sent_total += min(MAX_SOCKET_CHUNK, byte_count - sent_total)\n", expect="R9-send-advances-by-accepted"),
+    Mutant("readv cursor not shared on the in-order path", "breezy/transport/remote.py", "                    yield cur_offset_and_size[0], this_data\n                    try:\n                        cur_offset_and_size = next_offset[0] = next(offset_stack)\n", "                    yield cur_offset_and_size[0], this_data\n                    try:\n                        cur_offset_and_size = next(offset_stack)\n", expect="R10-readv-cursor-shared"),
     Mutant("stream byte counter moved above the error-chunk test", PF, "                    if isinstance(chunk, request.FailedSmartServerResponse):\n                        self._write_error_status()\n                        self._write_structure(chunk.args)\n                        break\n                    num_bytes += len(chunk)\n", "                    num_bytes += len(chunk)\n                    if isinstance(chunk, request.FailedSmartServerResponse):\n                        self._write_error_status()\n                        self._write_structure(chunk.args)\n                        break\n", expect="R8-error-chunk-recognised-first"),
     Mutant("big writes bypass the encoder buffer", PF, "        self._buf.append(bytes)\n        self._buf_len += len(bytes)\n", "        if len(bytes) > self.BUFFER_SIZE:\n            self._real_write_func(bytes)\n            return\n        self._buf.append(bytes)\n        self._buf_len += len(bytes)\n", expect="R6-encoder-single-writer"),
     Mutant("decoder restart bypasses its own guard", PF, "            # So we call accept_bytes again to restart it.\n            self.accept_bytes(b\"\")\n", "            _StatefulDecoder.accept_bytes(self, b\"\")\n", expect="R7-restart-through-guard"),
